@@ -72,6 +72,10 @@ var raceOps = []opFn{
 		return clip.InflatePathsD(sd, 1.25, clip.Bevel, clip.Polygon)
 	}},
 	{"MinkowskiSum64", func(s, c clip.Paths64, sd, cd clip.PathsD) any { return clip.MinkowskiSum64(c[0], s[0], true) }},
+	{"MinkowskiDiff64 (same pattern slice as MinkowskiSum64)", func(s, c clip.Paths64, sd, cd clip.PathsD) any { return clip.MinkowskiDiff64(c[0], s[0], false) }},
+	{"MinkowskiSum64 (pattern also used by Diff64), open", func(s, c clip.Paths64, sd, cd clip.PathsD) any {
+		return []any{clip.MinkowskiSum64(c[0], s[len(s)-1], false), clip.Area64(c[0])}
+	}},
 	{"MinkowskiDiffD", func(s, c clip.Paths64, sd, cd clip.PathsD) any { return clip.MinkowskiDiffD(cd[0], sd[0], false) }},
 	{"RectClipPaths64", func(s, c clip.Paths64, sd, cd clip.PathsD) any {
 		return clip.RectClipPaths64(clip.NewRect64(3, 3, 40, 30), s)
